@@ -162,6 +162,12 @@ def analyse(prop, repo, facts_path=None, keep_facts=False):
         mod.run(ctx, res)
     except lib.Lost as e:
         res.bad('ANCHOR', 'rules.%s' % prop.lower(), 'anchor lost: %s' % e, detail='the code the rule is anchored on cannot be found; the obligation cannot be established', key='anchor-lost:%s' % e)
+    except (AttributeError, TypeError, KeyError, IndexError, ValueError) as e:
+        # a rule met a term shape it was not written for: the obligation is not established (fail closed), not a crash
+        import traceback
+        tb = traceback.extract_tb(e.__traceback__)
+        where = '%s:%d' % (os.path.basename(tb[-1].filename), tb[-1].lineno) if tb else '?'
+        res.bad('ANCHOR', 'rules.%s' % prop.lower(), 'a rule could not interpret the code it is anchored on', detail='%s at %s' % (type(e).__name__, where), key='uninterpretable:%s' % where)
     return res, facts, nfiles, mod
 
 
